@@ -31,13 +31,20 @@ def exit_obligations(eng, outs, snap0, replay):
     return eng.obligations
 
 
-@unit("C13", "utils:query_terminal")
+@unit(("C13", "C12"), "utils:query_terminal")
 def u_query_terminal(ctx):
     eng = ctx.engine("C13/query_terminal", "C13")
     st = State()
     fault, snap0 = base_world(ctx, eng, st)
+    # input that was already queued when the query starts (a late reply to an earlier, interrupted query; type-ahead): whether there
+    # is any is unknown
+    st.ghost["stale_input"] = z3.Bool("input_queued_before_the_query")
 
     def write_tty(e, s, a, k):
+        # C12 ("each query receives exactly its own reply"): what was queued before must be gone when the request goes out, or the
+        # read that follows takes it for (the beginning of) the reply
+        e.oblige("C12:input-queued-before-the-query-is-discarded-before-the-request-is-written", s, Not(s.ghost["stale_input"]), prop="C12", kind="pre",
+                 replay="C12.stale_input")
         fault(e, s)
         return [(None, s)]
 
@@ -47,11 +54,11 @@ def u_query_terminal(ctx):
         # NOT query_terminal's own clean-up: then the attributes are whatever read_tty had set (arbitrary), and query_terminal's
         # `finally` is what puts them back
         fault(e, s)
-        e.raise_(ExcVal("Exception"), e.fork(s), fault=True)     # the caller's predicate raised
+        e.raise_(ExcVal("Exception"), e.fork(s), fault=True, in_cleanup_too=True)     # the caller's predicate raised
         for exc in ("KeyboardInterrupt", "OSError"):
             s2 = e.fork(s)
             tty.tty_init(s2, tag=f"left_by_read_tty_{exc}")
-            e.raise_(ExcVal(exc), s2, fault=True)
+            e.raise_(ExcVal(exc), s2, fault=True, in_cleanup_too=True)
         return [(Opaque("response"), s)]
     eng.genv.update(write_tty=Fn(write_tty), read_tty=Fn(read_tty))
     st.env.update(request=Opaque("request"), more=Opaque("more"), timeout=None)
